@@ -324,3 +324,7 @@ def run(ctx, eng):
     c20.check_push_leniency(ctx, eng)
     ctx.assume('ENABLE_PUSH timing over histories beyond "the acknowledged '
                'value is the one read" is not decided')
+    cm.include(ctx, eng, 'C11', {'FLOW.queue', 'FLOW.ack-source'},
+               'the client allows push = the ENABLE_PUSH value the peer has '
+               'acknowledged: one queued value per update, one popped per '
+               'ACK')
